@@ -426,7 +426,7 @@ func attempted(log string) []string {
 		if !filepath.IsAbs(p) && dir != "" {
 			p = filepath.Join(dir, p)
 		}
-		out = append(out, p)
+		out = append(out, filepath.Clean(p))
 	}
 	return out
 }
